@@ -470,6 +470,11 @@ fn jobject_to_choice(obj: &Map<String, serde_json::Value>) -> Result<Rc<dyn RTOb
         as_i64(field("originalThreadIndex")?, "choice thread index")? as usize;
     let path_string_on_choice = as_str(field("targetPath")?, "choice target path")?;
     let choice_tags = jarray_to_tags(obj)?;
+    // Absent in saves written by other runtimes (and for visible choices).
+    let is_invisible_default = obj
+        .get("isInvisibleDefault")
+        .and_then(|v| v.as_bool())
+        .unwrap_or(false);
 
     Ok(Rc::new(Choice::new_from_json(
         path_string_on_choice,
@@ -478,6 +483,7 @@ fn jobject_to_choice(obj: &Map<String, serde_json::Value>) -> Result<Rc<dyn RTOb
         index,
         original_thread_index,
         choice_tags,
+        is_invisible_default,
     )))
 }
 
